@@ -841,6 +841,9 @@ def check_bloom_sizing(rep, fl, set_off):
         rep.missing("R14.5", fl, "Bloom::new: get_size call / constructor not found")
         return
     S, E = ("field", sz, "size"), ("field", sz, "exp")
+    if "size" not in f or "shift" not in f or "bitset" not in f:
+        rep.bad("R14.5", fl, bn, "fields", "Bloom::new no longer derives the position mask (`size`), the hash shift (`shift`) and the bit array from get_size: fields %s" % sorted(f))
+        return
     words = f["bitset"][2][1] if is_call(f.get("bitset", ()), "from_elem") else None
     bad = []
     n_eval = 0
